@@ -695,7 +695,7 @@ type casUpdatePrincipalCallback func(p Principal) (updatedPrincipal Principal, e
 // Updates principal using the specified callback function, then does a cas-safe write of the updated principal
 // to the bucket.  On CAS failure, reloads the principal and reapplies the update, with up to PrincipalUpdateMaxCasRetries
 func (auth *Authenticator) casUpdatePrincipal(p Principal, callback casUpdatePrincipalCallback) error {
-	var err error
+	var lastSaveErr error
 	for i := 1; i <= PrincipalUpdateMaxCasRetries; i++ {
 		updatedPrincipal, err := callback(p)
 		if err != nil {
@@ -714,6 +714,7 @@ func (auth *Authenticator) casUpdatePrincipal(p Principal, callback casUpdatePri
 		if !base.IsCasMismatch(saveErr) {
 			return saveErr
 		}
+		lastSaveErr = saveErr
 
 		base.InfofCtx(auth.LogCtx, base.KeyAuth, "CAS mismatch in casUpdatePrincipal, retrying.  Principal:%s", base.UD(p.Name()))
 
@@ -733,8 +734,9 @@ func (auth *Authenticator) casUpdatePrincipal(p Principal, callback casUpdatePri
 			return base.ErrNotFound
 		}
 	}
-	base.InfofCtx(auth.LogCtx, base.KeyAuth, "Unable to update principal after %d attempts.  Principal:%s Error:%v", PrincipalUpdateMaxCasRetries, base.UD(p.Name()), err)
-	return err
+	// The update was not saved: report the last CAS failure rather than success
+	base.InfofCtx(auth.LogCtx, base.KeyAuth, "Unable to update principal after %d attempts.  Principal:%s Error:%v", PrincipalUpdateMaxCasRetries, base.UD(p.Name()), lastSaveErr)
+	return lastSaveErr
 }
 
 func (auth *Authenticator) DeleteUser(user User) error {
